@@ -30,7 +30,7 @@ import os
 import sys
 
 sys.path.insert(0, os.path.dirname(os.path.dirname(os.path.abspath(__file__))))
-from sa import core, pyfacts as pf, cfg as cfgm, cfacts, evalrules as er, exprnorm as en  # noqa: E402
+from sa import core, pyfacts as pf, cfg as cfgm, cfacts, evalrules as er, exprnorm as en, hinline  # noqa: E402
 from sa.selftest import Mutant  # noqa: E402
 
 PROP = "C11"
@@ -377,6 +377,31 @@ def rule_rbf_extract(chk, prog, tree):
         raise core.AnalysisError("%s: the quadratic form %s[j]*tmp*tmp was not recognised" % (helper, hname))
 
 
+def mapping_function(prog, name):
+    """a mapping function of map_tools.py with its private same-module helpers inlined (bounded depth), so
+    that the rules keep reading one body after an "extract function" clean-up"""
+    mod = prog.module(MT)
+    fn = mod.func(name)
+    try:
+        return hinline.inline_helpers(fn, hinline.class_resolver(prog, mod, None), depth=2)
+    except Exception as ex:  # the inliner is a convenience; the plain body is still analysable
+        raise core.AnalysisError("cannot inline the private helpers of %s: %r" % (name, ex))
+
+
+def alias_closure(fn, name):
+    """names whose value `name` may simply be a copy of (x = y, and element-wise tuple assignments)"""
+    seen, todo = set(), [name]
+    while todo:
+        x = todo.pop()
+        if x in seen:
+            continue
+        seen.add(x)
+        for st, v, k in er.assigns_to(fn, x):
+            if k == "assign" and isinstance(v, ast.Name):
+                todo.append(v.id)
+    return seen
+
+
 # ----------------------------------------------------------------------------
 # rule 3: mapping dispatch
 # ----------------------------------------------------------------------------
@@ -394,7 +419,7 @@ def _isinstance_classes(t, var=None):
 def rule_dispatch(chk, prog):
     mt = prog.module(MT)
     kn = prog.module(KN)
-    fn = mt.func("get_mapped_gp_evaluator_additive")
+    fn = mapping_function(prog, "get_mapped_gp_evaluator_additive")
     # the list of per-dimension factors is whatever is handed to project_kernel_onto_grid as 2nd argument;
     # the k0 ladder is the isinstance if/elif chain whose arms build that list (append loop, comprehension,
     # list(...) ...)
@@ -453,7 +478,10 @@ def rule_dispatch(chk, prog):
             continue
         who, names = ic
         # which names flow into `var`
-        srcs = {var} | {pf.src(v) for s, v, k in er.assigns_to(fn, var) if v is not None}
+        srcs = set()
+        for nm in alias_closure(fn, var):
+            srcs.add(nm)
+            srcs |= {pf.src(v) for s, v, k in er.assigns_to(fn, nm) if v is not None}
         if who in srcs:
             accepted += names
     if not accepted:
@@ -795,9 +823,17 @@ class IndexSorts:
 
     def _pass(self):
         fn = self.fn
+        pairs = []
         for n in ast.walk(fn):
-            if isinstance(n, ast.Assign) and len(n.targets) == 1 and isinstance(n.targets[0], ast.Name):
-                t, v = n.targets[0].id, n.value
+            if isinstance(n, ast.Assign) and len(n.targets) == 1:
+                tg, vl = n.targets[0], n.value
+                if isinstance(tg, ast.Name):
+                    pairs.append((n, tg.id, vl))
+                elif isinstance(tg, (ast.Tuple, ast.List)) and isinstance(vl, (ast.Tuple, ast.List)) \
+                        and len(tg.elts) == len(vl.elts):
+                    pairs += [(n, e.id, w) for e, w in zip(tg.elts, vl.elts) if isinstance(e, ast.Name)]
+        for n, t, v in pairs:
+            if True:
                 # D = X[:, J] with J an array of feature indices
                 if isinstance(v, ast.Subscript) and isinstance(v.value, ast.Name) and v.value.id in self.params \
                         and isinstance(v.slice, ast.Tuple) and len(v.slice.elts) == 2 \
@@ -831,7 +867,8 @@ class IndexSorts:
 def rule_index_space(chk, prog):
     mt = prog.module(MT)
     funcs = []
-    for name, fn in mt.functions.items():
+    for name in mt.functions:
+        fn = mapping_function(prog, name)
         ix = IndexSorts(fn)
         if ix.gathered:
             funcs.append((name, fn, ix))
@@ -959,20 +996,39 @@ def rule_scale_order(chk, prog):
     if expect < 3:
         raise core.AnalysisError("arbf_args: fewer than two order blocks found")
     # (b)+(c) the mapper enumerates index sets by ascending size and uses scale[0] for the empty set
-    fm = mt.func("get_mapped_gp_evaluator_additive")
+    fm = mapping_function(prog, "get_mapped_gp_evaluator_additive")
     g = cfgm.CFG(fm)
-    unpack = []
-    for st, v, k in er.assigns_to(fm, "scale"):
-        if k == "unpack" and isinstance(v, ast.Call) and pf.call_name(v) == "arbf_args":
+    unpack = []       # statements that take the scale list from arbf_args
+    scale_names = set()
+    for st in pf.walk_no_nested(fm):
+        if isinstance(st, ast.Assign) and isinstance(st.value, ast.Call) and pf.call_name(st.value) == "arbf_args" \
+                and isinstance(st.targets[0], (ast.Tuple, ast.List)):
             tgt = st.targets[0]
-            pos = [i for i, e in enumerate(tgt.elts) if isinstance(e, ast.Name) and e.id == "scale"]
-            if pos != [spos]:
+            if spos < len(tgt.elts) and isinstance(tgt.elts[spos], ast.Name):
+                scale_names.add(tgt.elts[spos].id)
+                unpack.append(st)
+            else:
                 chk.violation("scale-order", MT, "get_mapped_gp_evaluator_additive", pf.src(st), st.lineno,
-                              "`scale` is unpacked from position %s of arbf_args(...), which returns it at position %d"
-                              % (pos, spos))
-            unpack.append(st)
+                              "the result of arbf_args(...) is not unpacked with the scale list at position %d" % spos)
     if not unpack:
-        raise core.AnalysisError("the additive mapper no longer takes `scale` from arbf_args")
+        raise core.AnalysisError("the additive mapper no longer takes the scale list from arbf_args")
+
+    def lineage_ok(name, node, depth=0):
+        """every definition of `name` reaching `node` is the arbf_args unpack or a plain copy of a name whose
+        own reaching definitions are"""
+        for d in er.reaching_defs(g, name, node):
+            if d is None:
+                return d, False
+            if d.ast in unpack:
+                continue
+            src = [v for s_, v, k_ in er.assigns_to(fm, name) if s_ is d.ast]
+            if depth < 4 and len(src) == 1 and isinstance(src[0], ast.Name) and src[0].id != name:
+                bad, ok = lineage_ok(src[0].id, d, depth + 1)
+                if ok:
+                    continue
+                return (bad if bad is not None else d), False
+            return d, False
+        return None, True
     loops = [n for n in pf.walk_no_nested(fm) if isinstance(n, ast.For) and isinstance(n.iter, ast.Call)
              and pf.call_name(n.iter) == "combinations"]
     if len(loops) != 1:
@@ -991,7 +1047,8 @@ def rule_scale_order(chk, prog):
     # reads of scale[<const>] inside the term loop
     uses = []
     for n in ast.walk(outer if isinstance(outer, ast.For) else inner):
-        if isinstance(n, ast.Subscript) and isinstance(n.value, ast.Name) and n.value.id == "scale" \
+        if isinstance(n, ast.Subscript) and isinstance(n.value, ast.Name) \
+                and (n.value.id in scale_names or alias_closure(fm, n.value.id) & scale_names) \
                 and isinstance(n.ctx, ast.Load) and isinstance(n.slice, ast.Constant):
             uses.append(n)
     if not uses:
@@ -1001,10 +1058,9 @@ def rule_scale_order(chk, prog):
         st = node.ast
         conds = [pf.src(t) for t, pol, k in cfgm.conditions_at(st) if pol]
         inst = "additive mapper: `%s` refers to arbf_args' layout" % pf.src(st)[:60]
-        rd = er.reaching_defs(g, "scale", node)
-        foreign = [d for d in rd if d is None or d.ast not in unpack]
+        d, okl = lineage_ok(u.value.id, node)
+        foreign = [] if okl else [d]
         if foreign:
-            d = foreign[0]
             chk.violation("scale-order", MT, "get_mapped_gp_evaluator_additive", pf.src(st), st.lineno,
                           "`%s` is meant to pick entry %d of the scale list laid out by arbf_args (entry 0 = order-0 "
                           "scale for the empty index set), but `scale` may have been rebound by `%s` (line %s) before "
